@@ -89,11 +89,34 @@ pub struct InstallerStep {
     pub add: bool,
 }
 
+#[derive(Clone, Copy, Debug, Serialize, Deserialize, PartialEq, Eq)]
+pub enum LinkKind {
+    /// symbolic link whose target does not exist
+    Dangling,
+    /// symbolic link to a plain file outside the database
+    ToFile,
+    /// symbolic link to a directory outside the database holding the three mandatory files
+    ToCompleteDir,
+    /// symbolic link to a directory outside the database holding only +COMMENT
+    ToIncompleteDir,
+    /// symbolic link to itself
+    Loop,
+}
+
+/// A symbolic link lying at the top level of the database.
+#[derive(Clone, Debug, Serialize, Deserialize)]
+pub struct LinkObj {
+    pub name: String,
+    pub kind: LinkKind,
+}
+
 #[derive(Clone, Debug, Serialize, Deserialize)]
 pub struct Sc {
     pub db: DbKind,
     pub pkgs: Vec<PkgDir>,
     pub strays: Vec<String>,
+    #[serde(default)]
+    pub links: Vec<LinkObj>,
     pub installer: Vec<InstallerStep>,
     /// file names to push through MetadataEntry::from_filename
     pub probes: Vec<String>,
@@ -118,6 +141,7 @@ const NAMES: [&str; 14] = [
     "foo--1",
 ];
 const NODASH_NAMES: [&str; 3] = ["foo", "pkgdb", "1.0nb2"];
+const LINK_NAMES: [&str; 5] = ["lnk-1.0", "zlink-0nb1", "loop-3.0", "lnk-dangling-2", "a-link-1.0-2"];
 const STRAYS: [&str; 5] = ["pkgdb.byfile.db", "pkg-vulnerabilities", "stray-1.0", "+COMMENT", "README"];
 
 fn gen_content(rng: &mut Rng, file: usize) -> String {
@@ -238,6 +262,26 @@ impl Property for C20 {
                 }
             }
         }
+        let mut links: Vec<LinkObj> = Vec::new();
+        if rng.chance(1, 5) {
+            for _ in 0..rng.urange(1, 3) {
+                let name = rng.pick(&LINK_NAMES).to_string();
+                if links.iter().any(|l| l.name == name) {
+                    continue;
+                }
+                links.push(LinkObj {
+                    name,
+                    kind: *rng.pick(&[
+                        LinkKind::Dangling,
+                        LinkKind::ToFile,
+                        LinkKind::ToCompleteDir,
+                        LinkKind::ToCompleteDir,
+                        LinkKind::ToIncompleteDir,
+                        LinkKind::Loop,
+                    ]),
+                });
+            }
+        }
         let mut installer = Vec::new();
         if rng.chance(1, 3) && !pkgs.is_empty() {
             for _ in 0..rng.urange(1, 8) {
@@ -264,6 +308,7 @@ impl Property for C20 {
             db,
             pkgs,
             strays,
+            links,
             installer,
             probes,
         }
@@ -400,6 +445,35 @@ impl Property for C20 {
             sd.write(&format!("db/{}", s), b"stray");
             ctx.fault("stray_file_at_top");
         }
+        for l in &sc.links {
+            if sc.pkgs.iter().any(|p| p.name == l.name.as_bytes()) || sc.strays.contains(&l.name) {
+                continue;
+            }
+            let at = dbpath.join(&l.name);
+            let target = match l.kind {
+                LinkKind::Dangling => sd.path("nowhere"),
+                LinkKind::ToFile => {
+                    sd.write("outside-file", b"plain");
+                    sd.path("outside-file")
+                }
+                LinkKind::ToCompleteDir => {
+                    sd.mkdir("outside-complete");
+                    for f in [F_COMMENT, F_CONTENTS, F_DESC] {
+                        sd.write(&format!("outside-complete/{}", FILE_NAMES[f]), b"linked\n");
+                    }
+                    sd.path("outside-complete")
+                }
+                LinkKind::ToIncompleteDir => {
+                    sd.mkdir("outside-incomplete");
+                    sd.write("outside-incomplete/+COMMENT", b"linked\n");
+                    sd.path("outside-incomplete")
+                }
+                LinkKind::Loop => at.clone(),
+            };
+            std::os::unix::fs::symlink(&target, &at).unwrap_or_else(|e| panic!("SIM-HARNESS: symlink {:?}: {}", at, e));
+            ctx.fault("symlink_at_top");
+            ctx.step("symlink", l.kind as u64, crate::rng::hash_str(&l.name));
+        }
         if sc.pkgs.is_empty() {
             ctx.probe("empty-db");
         }
@@ -424,7 +498,7 @@ impl Property for C20 {
         let mut nexts = 0usize;
         let mut si = 0usize;
         let mut applied_between = 0usize;
-        let budget = sc.pkgs.len() + sc.strays.len() + 8;
+        let budget = sc.pkgs.len() + sc.strays.len() + sc.links.len() + 8;
         loop {
             while si < sc.installer.len() && sc.installer[si].after_next <= nexts {
                 let st = &sc.installer[si];
@@ -571,8 +645,16 @@ impl Property for C20 {
                 );
             }
         }
+        // a symbolic link to a complete package directory: whether that is a
+        // "sub-directory" is not fixed by the property - listed or not, never twice
+        for l in sc.links.iter().filter(|l| l.kind == LinkKind::ToCompleteDir) {
+            let count = yielded.iter().filter(|y| y.0 == l.name).count();
+            ctx.probe(if count > 0 { "symlinked-package-dir-listed" } else { "symlinked-package-dir-not-listed" });
+            ensure!(count <= 1, "package-listed-twice", "{:?} (a symbolic link) was yielded {} times", l.name, count);
+        }
         for y in &yielded {
-            let known = sc.pkgs.iter().any(|p| p.name == y.0.as_bytes());
+            let known = sc.pkgs.iter().any(|p| p.name == y.0.as_bytes())
+                || sc.links.iter().any(|l| l.kind == LinkKind::ToCompleteDir && l.name == y.0);
             ensure!(
                 known,
                 "stray-object-listed",
@@ -754,6 +836,9 @@ impl Property for C20 {
         for st in shrink_vec(&sc.strays) {
             push!(Sc { strays: st, ..sc.clone() });
         }
+        for l in shrink_vec(&sc.links) {
+            push!(Sc { links: l, ..sc.clone() });
+        }
         if !sc.probes.is_empty() {
             push!(Sc { probes: vec![], ..sc.clone() });
         }
@@ -813,7 +898,8 @@ impl Property for C20 {
         "Each run draws a database configuration: 0..8 package directories (names with one or several '-', nb \
          revisions, empty base or version, non-ASCII; rarely without '-' or non-UTF-8), each installed by writing its \
          14 '+' files in a per-run random order and interrupted after j files (j in 0..14; swarm-chosen crash rate), \
-         stray top-level files, rarely a missing or plain-file database path; in a third of the runs an installer adds \
+         stray top-level files, in a fifth of the runs symbolic links at top level (dangling, to a file, to a complete \
+         or incomplete directory outside the database, to itself), rarely a missing or plain-file database path; in a third of the runs an installer adds \
          or removes '+' files inside existing directories between next() calls. Non-trivial = at least one \
          interrupted install, stray file or installer step; distinct = distinct schedule signatures (hash of the \
          install write sequences, installer steps and iteration outcome). The 14-entry file-name table is enumerated \
@@ -835,6 +921,7 @@ impl Property for C20 {
             "readdir order is not owned by the simulator; every comparison is a multiset comparison and the event log is sorted by name",
             "directories whose mandatory files are touched by the interleaved installer may be listed or not (never twice)",
             "names without '-' and non-UTF-8 names: only 'no panic, other packages listed exactly once' is required",
+            "a top-level symbolic link to a complete package directory may be listed or not (the property does not say whether it is a sub-directory); dangling links, links to files, to incomplete directories and to themselves must not be listed",
             "'+SIZE_ALL' / '+SIZE_PKG' hold integers here (non-numeric sizes are C17's subject); file contents are UTF-8",
             "I/O errors from read_dir cannot be injected (no FS seam; checks run as root)",
         ]
